@@ -150,6 +150,9 @@ class Scheduler:
         try:
             while not target.done:
                 cands = self._pick(me, "join", self_first=False, self_ok=True)
+                # default: the thread we are waiting for runs (older abandoned threads only
+                # run when the explorer deviates)
+                cands.sort(key=lambda t: (t is me, t is not target, t.idx))
                 if not cands:
                     self.deadlock = True
                     raise Deadlock("join: nobody enabled (hang)")
